@@ -8,6 +8,10 @@ mod vecmodel;
 
 use common::runner::main_for;
 
+// largest single allocation request while a decoder runs (C17); a relaxed load otherwise
+#[global_allocator]
+static ALLOC: props::c17::CountingAlloc = props::c17::CountingAlloc;
+
 fn main() {
     let args: Vec<String> = std::env::args().skip(1).collect();
     if args.is_empty() {
@@ -25,6 +29,7 @@ fn main() {
         "C08" => main_for::<props::c08::P>(rest),
         "C13" => main_for::<props::c13::P>(rest),
         "C16" => main_for::<props::c16::P>(rest),
+        "C17" => main_for::<props::c17::P>(rest),
         "C20" => main_for::<props::c20::P>(rest),
         _ => {
             eprintln!("unknown property {id}");
